@@ -899,6 +899,10 @@ func (g *gen) behC13() M {
 					m = M{"t": "E", "portal": "", "max": g.maxRows()}
 				case 2:
 					m = M{"t": g.pick("D", "C", "C"), "kind": g.pick("P", "S"), "name": ""} // Describe / Close are foreign messages too
+					if g.chance(0.4) {
+						// a CopyFail that is not even well-formed (no reason, or no terminator) aborts the COPY all the same
+						m = M{"t": "Bad", "ty": "f", "cls": g.pick("short", "nonul")}
+					}
 				case 3:
 					if r == rounds-1 {
 						m = M{"t": "X"} // Terminate in the middle of a COPY is a foreign message like any other
